@@ -128,10 +128,27 @@ def arr_rng(aseed: int, *more) -> np.random.Generator:
 # ----------------------------------------------------------------------------
 # run context
 # ----------------------------------------------------------------------------
+_OPEN_KEYS = None
+
+
+def open_finding_keys() -> set:
+    """Keys of the findings listed as open in /verif/known_findings.json (read once per process)."""
+    global _OPEN_KEYS
+    if _OPEN_KEYS is None:
+        path = os.path.join(os.path.dirname(os.path.dirname(os.path.abspath(__file__))), "known_findings.json")
+        try:
+            with open(path) as f:
+                _OPEN_KEYS = {k["key"] for k in json.load(f).get("findings", []) if k.get("status") == "open"}
+        except FileNotFoundError:
+            _OPEN_KEYS = set()
+    return _OPEN_KEYS
+
+
 class Ctx:
-    def __init__(self, seed: int, tier: str):
+    def __init__(self, seed: int, tier: str, strict: bool = False):
         self.seed = seed
         self.tier = tier
+        self.strict = strict  # True: do not steer around listed findings (used to reproduce them)
         self.probes = Counter()
         self.faults = Counter()  # fault kinds that actually fired
         self.events = []  # (i, op name, outcome, digest)
@@ -144,6 +161,11 @@ class Ctx:
         self.bigrams = set()
         self.discards = Counter()
         self._last_op = None
+
+    def avoids(self, key: str) -> bool:
+        """True when the generator / oracle must steer around a finding that is listed as open, so that
+        it cannot mask other violations; every such finding is reproduced separately from its own replay file."""
+        return (not self.strict) and key in open_finding_keys()
 
     def probe(self, name: str, n: int = 1) -> None:
         self.probes[name] += n
@@ -255,9 +277,9 @@ class Trace:
 
 
 def execute(world_cls, seed: int, tier: str, cfg: dict = None, ops: list = None,
-            nops: int = None, faults: bool = False) -> Trace:
+            nops: int = None, faults: bool = False, strict: bool = False) -> Trace:
     """Runs one simulation.  cfg/ops None => drawn from the seed; given => replayed verbatim."""
-    ctx = Ctx(seed, tier)
+    ctx = Ctx(seed, tier, strict)
     if cfg is None:
         cfg = world_cls.gen_config(np.random.default_rng([seed, 0]), tier, faults)
     trace = Trace(world_cls.ENGINE, seed, tier, cfg)
